@@ -60,9 +60,9 @@ def parse_traces(report):
 
 def session_traces(report):
     ev = {"rule": "mfm", "input": "text", "outcome": "ok",
-          "g": {"mfm": "True", "ofm": "False", "style": "att", "range": [], "sections": []}, "res": "R", "fresh": "R"}
+          "g": {"mfm": "True", "ofm": "False", "style": "att", "range": [], "sections": []}, "res": "R", "fresh": "R", "res1": "A", "res2": "A"}
     ev2 = {"rule": "plain", "input": "text", "outcome": "ok",
-           "g": {"mfm": "False", "ofm": "False", "style": "att", "range": [], "sections": []}, "res": "S", "fresh": "S"}
+           "g": {"mfm": "False", "ofm": "False", "style": "att", "range": [], "sections": []}, "res": "S", "fresh": "S", "res1": "B", "res2": "B"}
     traces = [("uncorrupted", [ev, ev2], "ok")]
     t = copy.deepcopy([ev, ev2])
     t[1]["g"]["mfm"] = "True"
@@ -70,6 +70,9 @@ def session_traces(report):
     t = copy.deepcopy([ev, ev2])
     t[1]["res"] = "other"
     traces.append(("result differs from the fresh process", t, "rej:C14_DiffersFromFreshProcess"))
+    t = copy.deepcopy([ev, ev2])
+    t[1]["res2"] = "BB"
+    traces.append(("a second call on the same object gives another result", t, "rej:C14_SecondCallOnTheSameObjectDiffers"))
     t = copy.deepcopy([ev, ev2])
     t[0]["g"]["range"] = ["401000", "401010"]
     traces.append(("a range nobody configured", t, "rej:C14_ConfigIsNotTheRules"))
